@@ -647,8 +647,33 @@ pub fn gen_op(rng: &mut Rng, model: &str, c: &LangCorpus, faulting: bool) -> Op 
         fix: f.to_string(),
       }
     }
+    // re-layout: an existing run of blanks is replaced by another run of blanks
+    75..=80 => {
+      let bytes = model.as_bytes();
+      let mut runs: Vec<(usize, usize)> = vec![];
+      let mut i = 0;
+      while i < bytes.len() {
+        if matches!(bytes[i], b' ' | b'\t' | b'\n' | b'\r') {
+          let st = i;
+          while i < bytes.len() && matches!(bytes[i], b' ' | b'\t' | b'\n' | b'\r') {
+            i += 1;
+          }
+          runs.push((st, i));
+        } else {
+          i += 1;
+        }
+      }
+      if runs.is_empty() {
+        return Op::Splice { pos: 0, del: 0, ins: "\n".into() };
+      }
+      let (st, en) = *rng.pick(&runs);
+      // the whole run or a part of it
+      let (st, en) = if rng.chance(0.5) || en - st < 2 { (st, en) } else { (st + 1, en) };
+      let ins = *rng.pick(&[" ", "\n", "  ", "\n    ", "\t", "\n\n", "\r\n", "\n  ", "    "]);
+      Op::Splice { pos: st, del: en - st, ins: ins.to_string() }
+    }
     // arbitrary fragment at an arbitrary character boundary (often makes the text dirty)
-    75..=84 => {
+    81..=84 => {
       let pos = char_boundary_near(model, rng.below(model.len() + 1));
       Op::Splice {
         pos,
